@@ -73,7 +73,7 @@ func init() {
 			"the PROXY header is written only on the route.ProxyProtocol edge, built from the client's address and the backend connection, before the handshake; in Forward the buffered " +
 			"client bytes are flushed to the backend before the pipe starts and only if that succeeded; the pipe is two io.Copy calls in opposite directions and nothing else writes to either side.",
 		Explanation: "Decides: provenance of every byte Lite itself writes to the backend and the gating of the two configured rewrites. Does not decide: io.Copy or the PROXY header encoder.",
-		Fixtures: []string{"guardcut", "provenance"},
+		Fixtures:    []string{"guardcut", "provenance"},
 		Variants: []Variant{
 			{Name: "always-reencode", File: pkgLite + "/forward.go",
 				Old: "\tif forceUpdatePacketContext {\n\t\tupdate(handshakeCtx, handshake)\n\t}", New: "\tupdate(handshakeCtx, handshake)", Expect: "handshake-unchanged"},
@@ -227,7 +227,9 @@ func runC29(c *Ctx) {
 	}
 	// cleaned host
 	if fr := c.MustFunc(pkgLite + ":findRoute"); fr != nil {
-		for _, ci := range callsIn(fr, func(nm string, cc *ssa.CallCommon) bool { return strings.HasSuffix(nm, "lite.FindRouteWithGroups") || strings.HasSuffix(nm, "lite.FindRoute") }) {
+		for _, ci := range callsIn(fr, func(nm string, cc *ssa.CallCommon) bool {
+			return strings.HasSuffix(nm, "lite.FindRouteWithGroups") || strings.HasSuffix(nm, "lite.FindRoute")
+		}) {
 			a := callValue(ci.Common().Args[0])
 			ok := a != nil && strings.HasSuffix(calleeName(&a.Call), "lite.ClearVirtualHost") && strings.HasSuffix(PathOf(a.Call.Args[0]), ".ServerAddress")
 			c.Check("cleaned-host", "FindRouteWithGroups(ClearVirtualHost(handshake.ServerAddress))@findRoute", ci, ok, "routes must be matched against the cleaned virtual host")
@@ -299,7 +301,9 @@ func runC29(c *Ctx) {
 			continue
 		}
 		for _, ci := range callsIn(fn, func(nm string, cc *ssa.CallCommon) bool { return strings.HasSuffix(nm, "lite.tryBackends") }) {
-			g, ns := MustCross(ci, func(e Edge, cond ssa.Value, truth bool) bool { return errNilEdge(cond, truth, callSuffix("lite.findRoute")) })
+			g, ns := MustCross(ci, func(e Edge, cond ssa.Value, truth bool) bool {
+				return errNilEdge(cond, truth, callSuffix("lite.findRoute"))
+			})
 			c.Check("no-dial-without-route", "tryBackends@"+name, ci, g && ns > 0, "backends are tried although no route matched the host (a host matching no route must be closed without dialing)")
 		}
 	}
@@ -352,7 +356,9 @@ func runC30(c *Ctx) {
 	if fr != nil {
 		n := 0
 		for _, cl := range fr.AnonFuncs {
-			for _, ci := range callsIn(cl, func(nm string, cc *ssa.CallCommon) bool { return strings.HasSuffix(nm, "StrategyManager).GetNextBackend") }) {
+			for _, ci := range callsIn(cl, func(nm string, cc *ssa.CallCommon) bool {
+				return strings.HasSuffix(nm, "StrategyManager).GetNextBackend")
+			}) {
 				n++
 				call := ci.(*ssa.Call)
 				// the candidate list cell: free variable holding a []string that is passed to GetNextBackend
@@ -558,7 +564,9 @@ func runC31(c *Ctx) {
 			c.Check("handshake-unchanged", "update-only-on-rewrite@dialRoute", ci, ok, "the client's handshake must be forwarded exactly as sent unless a configured rewrite applies: "+detail)
 		}
 		// EqualFold / TCPShield tests themselves under the route options
-		for _, ci := range callsIn(dr, func(nm string, cc *ssa.CallCommon) bool { return nm == "strings.EqualFold" || strings.HasSuffix(nm, "lite.IsTCPShieldRealIP") }) {
+		for _, ci := range callsIn(dr, func(nm string, cc *ssa.CallCommon) bool {
+			return nm == "strings.EqualFold" || strings.HasSuffix(nm, "lite.IsTCPShieldRealIP")
+		}) {
 			opt := ".ModifyVirtualHost"
 			if strings.HasSuffix(calleeName(ci.Common()), "IsTCPShieldRealIP") {
 				opt = "GetTCPShieldRealIP"
@@ -579,7 +587,9 @@ func runC31(c *Ctx) {
 		nH := 0
 		for _, ci := range callsIn(dr, func(nm string, cc *ssa.CallCommon) bool { return strings.HasSuffix(nm, "protoutil.ProxyHeader") }) {
 			nH++
-			g, n := MustCross(ci, func(e Edge, cond ssa.Value, truth bool) bool { return truth && strings.HasSuffix(PathOf(cond), ".ProxyProtocol") })
+			g, n := MustCross(ci, func(e Edge, cond ssa.Value, truth bool) bool {
+				return truth && strings.HasSuffix(PathOf(cond), ".ProxyProtocol")
+			})
 			a := ci.Common().Args
 			okArgs := strip(a[0]) == ssa.Value(dr.Params[2]) && func() bool {
 				cl := callValue(a[1])
